@@ -19,7 +19,7 @@ COUNT = {"quick": 1500, "thorough": 25000}
 # C03 / C04 / C05 are also judged on interleaved (Level B) executions: BMonitors.v check_C03b / C04b / C05b
 BCOUNT = {"quick": 500, "thorough": 8000}
 BPIDS = ("C03", "C04", "C05")
-WHOLE_HISTORY = ("C03", "C05", "C17")
+WHOLE_HISTORY = ("C03", "C04", "C05", "C17")
 
 
 def gen(pid, tier, rng, n=None, poison=None):
@@ -51,7 +51,8 @@ def coq_expr(pid, s, r):
         return bprop.coq_expr(pid, s, r, "b")
     if pid in WHOLE_HISTORY:
         # also evaluate the decidable hypotheses of the whole-history theorem (Pf_Hist.v) on this scenario
-        return f"(check_{pid} ({s.coq(*r['adr'])}) {common.obs_list(r)}, wf_histb ({s.coq(*r['adr'])}))"
+        hyp = f"wf_histb ({s.coq(*r['adr'])})" + (f" && wf4b ({s.coq(*r['adr'])})" if pid == "C04" else "")
+        return f"(check_{pid} ({s.coq(*r['adr'])}) {common.obs_list(r)}, {hyp})"
     return f"check_{pid} ({s.coq(*r['adr'])}) {common.obs_list(r)}"
 
 
